@@ -44,10 +44,10 @@ Proof.
 Qed.
 Print Assumptions C16_full_refuted.
 
-(* ---- a cancel that hits an acquire() between the completion of its waiter future and the
-        resumption of its task loses the wake-up: T1 holds the only connection, T2 and T3 queue,
-        T1 releases (T2's waiter is completed), T2 is cancelled, T2's task resumes with
-        CancelledError.  The connection sits on the stack, T3 is still queued, nothing is scheduled. *)
+(* ---- regression witness for fix 7b54f16 (try_acquire: `except BaseException`): T1 holds the only
+        connection, T2 and T3 queue, T1 releases (T2's waiter is completed), T2 is cancelled
+        before it resumes.  Before the fix the connection stayed on the stack with T3 queued and
+        nothing scheduled; now T2's cleanup passes the wake-up on and T3 gets the connection. *)
 Definition c_trace : list (event * oracle) :=
   [(EAcquire 1%N 1%N, mkOracle [] [] [] false []); (ERun, mkOracle [] [] [] false []);
    (ERun, mkOracle [] [] [] false []); (EConnOk 1%N, mkOracle [] [] [] false []);
@@ -55,16 +55,16 @@ Definition c_trace : list (event * oracle) :=
    (EAcquire 2%N 1%N, mkOracle [] [] [] false []); (EAcquire 3%N 1%N, mkOracle [] [] [] false []);
    (ERun, mkOracle [1%N] [] [] false []); (ERun, mkOracle [1%N] [] [] false []);
    (ERelease 1%N 1%N false, mkOracle [1%N] [] [] false []); (ECancel 2%N, mkOracle [] [] [] false []);
-   (ERun, mkOracle [1%N] [] [] false [])].
+   (ERun, mkOracle [1%N] [] [] false []); (ERun, mkOracle [1%N] [] [] false [])].
 Definition c_state : pool :=
   Eval vm_compute in match run (init 1) c_trace with Some s => s | None => init 0 end.
 
-Theorem C16_late_cancel_loses_wakeup :
-  reach 1 c_state /\ c_state.(ready) = [] /\
-  exists b, In b c_state.(blocks) /\ b.(b_stack) = [1%N] /\ b.(b_waiters) = [(3%N, WAcq)] /\
-            has_pending b.(b_waiters) = true /\ nwok c_state b.(b_id) = 0.
+Theorem C16_late_cancel_passes_wakeup_on :
+  reach 1 c_state /\ c_state.(ready) = [] /\ c_state.(g_held) = [(1%N, (3%N, 1%N))] /\
+  forall b, In b c_state.(blocks) -> b.(b_waiters) = [] /\ b.(b_stack) = [].
 Proof.
   split; [apply (run_reach 1 c_trace (init 1)); [apply reach_init|vm_compute; reflexivity]|].
-  split; [vm_compute; reflexivity|]. eexists. split; [vm_compute; left; reflexivity|vm_compute; repeat split].
+  split; [vm_compute; reflexivity|]. split; [vm_compute; reflexivity|].
+  intros b Hb. vm_compute in Hb. destruct Hb as [<-|[]]. vm_compute. split; reflexivity.
 Qed.
-Print Assumptions C16_late_cancel_loses_wakeup.
+Print Assumptions C16_late_cancel_passes_wakeup_on.
